@@ -43,6 +43,10 @@ theorem gen_constants :
 /-- the consumer re-polls instead of leaving while an index is handed out but not popped (repair
 0c66556); the theorems below that assume `c.sizeCheck = true` are about this code -/
 theorem gen_exit_checks_size : exitChecksSize = true := by decide
+/-- the configuration the replay driver runs the model in (`sizeCheck := exitChecksSize`, any capacity)
+satisfies the hypothesis `c.sizeCheck = true` of the theorems below -/
+theorem gen_code_cfg (cap : Nat) : ({ cap := cap, sizeCheck := exitChecksSize } : Cfg).sizeCheck = true :=
+  gen_exit_checks_size
 
 /-! ## eq_single_consumer -/
 
@@ -85,26 +89,6 @@ theorem eq_consume_exclusive (c : Cfg) (s : State) (hr : Reach c s) :
     fun t u ht hu => ho.uniq t u (hcb _ ht) (hcb _ hu)⟩
 
 /-! ## eq_each_once_in_order -/
-
-/-- all items for which an index was taken so far, in index order -/
-def allItems (s : State) : List Item := (List.range s.tail).filterMap s.tick
-
-theorem pairwise_items {s : State} (hi : InvI s) (n : Nat) :
-    ((List.range n).filterMap s.tick).Pairwise (fun a b => a.owner = b.owner → a.seq < b.seq) := by
-  induction n with
-  | zero => simp
-  | succ n ih =>
-    rw [List.range_succ, List.filterMap_append, List.pairwise_append]
-    refine ⟨ih, ?_, ?_⟩
-    · cases h : s.tick n <;> simp [h]
-    · intro a ha b hb hab
-      rw [List.mem_filterMap] at ha hb
-      obtain ⟨i, hi', hia⟩ := ha
-      obtain ⟨j, hj, hjb⟩ := hb
-      rw [List.mem_range] at hi'
-      simp only [List.mem_singleton] at hj
-      subst hj
-      exact (hi.ord i j a b hia hjb hab).1 hi'
 
 /-- **Exactly once, in order.**  What the consume function has been handed so far is exactly the items
 of the indices `0 … ncons-1` in index order — a prefix of the items of all indices taken — and in that
@@ -490,5 +474,27 @@ example : ∃ s, Reach { cap := 4 } s ∧ s.pc 1 = .j0 [2, 0, 1] ∧ s.events = 
     rw [hs] at hrun
     simp only [Option.map_some, Option.some.injEq, Prod.mk.injEq] at hrun
     exact ⟨s, run_reachable _ _ _ (Reachable.base rfl) hs, hrun.1, hrun.2.1, hrun.2.2⟩
+
+/-- why `eq_no_deadlock` assumes that no refused launch is outstanding: with capacity 2, after the two
+refusals of `demoSched` nobody consumes, `_events` is 0, and thread 2's third push (index 2) waits for
+a slot forever unless somebody calls `signal_push_event` again — the documented consequence of a failed
+launch ("data is enqueued but cannot be consumed"). -/
+example : ∃ s, Reach { cap := 2 } s ∧ s.debt = true ∧ s.events = 0 ∧ s.launched = 0 ∧
+    (∀ inp, stepThread { cap := 2 } s 2 inp = none) ∧ (∀ t, t < 8 → t ≠ 2 → s.pc t = .idle) := by
+  have hrun : (run { cap := 2 } State.init (demoSched.take 16)).map
+      (fun s => decide (s.debt = true ∧ s.events = 0 ∧ s.launched = 0 ∧ s.head = 0 ∧
+        s.pc 2 = .pPublish ⟨2, 1, 201⟩ 2) && (List.range 8).all (fun t => t = 2 || s.pc t = .idle)) = some true := by
+    decide
+  cases hs : run { cap := 2 } State.init (demoSched.take 16) with
+  | none => rw [hs] at hrun; simp at hrun
+  | some s =>
+    rw [hs] at hrun
+    simp only [Option.map_some, Option.some.injEq, Bool.and_eq_true, decide_eq_true_eq] at hrun
+    obtain ⟨⟨h1, h2, h3, h4, h5⟩, h6⟩ := hrun
+    refine ⟨s, run_reachable _ _ _ (Reachable.base rfl) hs, h1, h2, h3, ?_, ?_⟩
+    · intro inp; simp [stepThread, h5, h4]
+    · intro t ht hne
+      have := List.all_eq_true.mp h6 t (List.mem_range.mpr ht)
+      simpa [hne] using this
 
 end Babylon.Properties.C16
